@@ -377,3 +377,10 @@ Example ex_rigid :
   correct_all [true;false;true] (map (fun d => zip_with Z.add d [7;8;9]) [[0;1;2];[0;5;5];[0;3;-4]])
   = [[0; -2; 6]; [0; 6; 12]; [0; 2; -6]].
 Proof. vm_compute. reflexivity. Qed.
+
+(* the correction subtracts the same vector from every atom: the motion of any two atoms relative to each other is what it was *)
+Theorem relative_motion_preserved n dn d1 d2 t :
+  (t < length d1)%nat -> (t < length d2)%nat -> (t < length dn)%nat ->
+  nth t (corrected_n n dn d1) 0 - nth t (corrected_n n dn d2) 0 = n * (nth t d1 0 - nth t d2 0).
+Proof. intros H1 H2 Hn. rewrite !corrected_n_nth by assumption. ring. Qed.
+Print Assumptions relative_motion_preserved.
